@@ -492,14 +492,51 @@ func c07Clone(w *World, r *Report, ra *repoAnchors) {
 			if e.Kind == "static" && e.Callee.Signature.Recv() != nil && e.Callee.Blocks != nil && e.Callee != clone {
 				ci = e.Callee
 			}
+			if e.Kind == "static" && e.Callee == clone && ci == nil {
+				ci = clone // Clone is itself the recursive function
+			}
 		}
 	}
-	if ci == nil || len(ci.Params) != 2 {
+	// two shapes: cloneInto(src, out) fills a node handed in; clone(src) returns the fresh node
+	var src *ssa.Parameter
+	var out ssa.Value
+	switch {
+	case ci != nil && len(ci.Params) == 2:
+		src, out = ci.Params[0], ci.Params[1]
+	case ci != nil && len(ci.Params) == 1:
+		src = ci.Params[0]
+		for _, ret := range returnsOf(ci) {
+			if len(ret.Results) != 1 {
+				continue
+			}
+			for _, o := range w.Origins(ret.Results[0], nil) {
+				if a, ok := o.(*ssa.Alloc); ok && derefNamed(a.Type()) == derefNamed(src.Type()) {
+					out = a
+				}
+			}
+		}
+	}
+	if ci == nil || src == nil || out == nil {
 		r.Undecided(ri, "the recursive clone helper of the tree was not found")
 		return
 	}
 	r.Analysed(w.FnName(ci))
-	src, out := ci.Params[0], ci.Params[1]
+	// recursiveCloneOf: v is the result of the recursive clone applied to (an element of) field fname of the source
+	recursiveCloneOf := func(v ssa.Value, fname string) bool {
+		for _, o := range w.Origins(v, nil) {
+			c, ok := o.(*ssa.Call)
+			if !ok || c.Common().StaticCallee() != ci || len(c.Common().Args) != 1 {
+				continue
+			}
+			if dependsOn(w, c.Common().Args[0], func(x ssa.Value) bool {
+				root, p := accessPath(x)
+				return root == ssa.Value(src) && len(p) == 1 && p[0] == fname
+			}) {
+				return true
+			}
+		}
+		return false
+	}
 	st := ra.treeT.Underlying().(*types.Struct)
 	for i := 0; i < st.NumFields(); i++ {
 		f := st.Field(i)
@@ -563,6 +600,9 @@ func c07Clone(w *World, r *Report, ra *repoAnchors) {
 								}
 								root, p := accessPath(ia.X)
 								if (root == ssa.Value(out) && len(p) == 1 && p[0] == f.Name()) || ia.X == x.(ssa.Value) {
+									if recursiveCloneOf(es.Val, f.Name()) {
+										elemFresh = true
+									}
 									if ea, isA := es.Val.(*ssa.Alloc); isA {
 										// and the fresh element is filled by the recursive clone
 										for _, c := range callsIn(ci) {
@@ -582,6 +622,9 @@ func c07Clone(w *World, r *Report, ra *repoAnchors) {
 				case *ssa.Call:
 					n := callName(x.Common())
 					if n == "slices.Clone" || n == "maps.Clone" {
+						fresh = true
+					}
+					if recursiveCloneOf(x, f.Name()) {
 						fresh = true
 					}
 				}
@@ -611,7 +654,7 @@ func c07Clone(w *World, r *Report, ra *repoAnchors) {
 							continue
 						}
 						if tested != nil {
-							if root, p := accessPath(tested); root != ssa.Value(src) || len(p) != 1 {
+							if root, p := accessPath(tested); root != ssa.Value(src) || len(p) > 1 {
 								guardOK = false
 							}
 						}
@@ -637,6 +680,8 @@ func checkC06(w *World, r *Report) {
 	c06Bookkeeping(w, r, ra)
 	c06ChangeDetection(w, r, ra)
 	c06NodeRemoval(w, r, ra)
+	// a rejected change leaves the live tree untouched only if the working copy shares nothing with it
+	c07Clone(w, r, ra)
 }
 
 func sharedStateStores(fn *ssa.Function, ra *repoAnchors) []*ssa.Store {
@@ -1099,6 +1144,7 @@ func c06NodeRemoval(w *World, r *Report, ra *repoAnchors) {
 	}
 	r.Analysed(w.FnName(del))
 	n := 0
+	detachSeen := map[*ssa.Function]bool{}
 	for _, ci := range callsIn(del) {
 		c, ok := ci.(*ssa.Call)
 		if !ok {
@@ -1113,6 +1159,10 @@ func c06NodeRemoval(w *World, r *Report, ra *repoAnchors) {
 			continue
 		}
 		n++
+		if !detachSeen[callee] {
+			detachSeen[callee] = true
+			c06DetachOnlyChildless(w, r, callee)
+		}
 		child := c.Common().Args[1]
 		okG := onlyVia(del, c.Block(), func(f Fact) bool {
 			l, kind := lenFact(f)
@@ -1132,5 +1182,103 @@ func c06NodeRemoval(w *World, r *Report, ra *repoAnchors) {
 	}
 	if n == 0 {
 		r.Undecided(ri, "delNode never detaches a child")
+	}
+}
+
+
+// c06DetachOnlyChildless (C06.7): the helper that detaches a child node from its parent does so only
+// behind checks that the child has no children of any kind - one emptiness test per child container
+// of the node type (pointer-typed: nil; slice-typed: empty, also through the parallel index bytes).
+// Detaching a node that still has, say, a catch-all child unlinks the rules below it although
+// they are still loaded.
+func c06DetachOnlyChildless(w *World, r *Report, helper *ssa.Function) {
+	ri := r.Rule("C06.7", 3, "a node is detached from its parent only behind a check of every kind of child container that it is empty (a node that still has children keeps its place in the tree)")
+	if len(helper.Params) < 2 {
+		return
+	}
+	recv, child := helper.Params[0], helper.Params[1]
+	nodeT := derefNamed(recv.Type())
+	if nodeT == nil {
+		return
+	}
+	st, ok := nodeT.Underlying().(*types.Struct)
+	if !ok {
+		return
+	}
+	r.Analysed(w.FnName(helper))
+	isNodePtr := func(t types.Type) bool {
+		p, ok := t.Underlying().(*types.Pointer)
+		return ok && derefNamed(p) == nodeT || (ok && derefNamed(p.Elem()) != nil && derefNamed(p.Elem()).Origin() == nodeT.Origin())
+	}
+	var ptrKinds, sliceKinds []string
+	hasByteIdx := ""
+	for i := 0; i < st.NumFields(); i++ {
+		f := st.Field(i)
+		if isNodePtr(f.Type()) {
+			ptrKinds = append(ptrKinds, f.Name())
+		}
+		if sl, ok := f.Type().Underlying().(*types.Slice); ok {
+			if isNodePtr(sl.Elem()) {
+				sliceKinds = append(sliceKinds, f.Name())
+			} else if b, ok := sl.Elem().Underlying().(*types.Basic); ok && b.Kind() == types.Uint8 {
+				hasByteIdx = f.Name()
+			}
+		}
+	}
+	// the detaching effects: nil stored into a node-pointer field of the receiver, or a call of another
+	// node-writing method on the receiver
+	var effects []ssa.Instruction
+	eachInstr(helper, func(in ssa.Instruction) {
+		switch x := in.(type) {
+		case *ssa.Store:
+			root, p := accessPath(x.Addr)
+			if root == ssa.Value(recv) && len(p) == 1 && isNilConst(x.Val) {
+				effects = append(effects, in)
+			}
+		case *ssa.Call:
+			cal := x.Common().StaticCallee()
+			if cal != nil && cal != helper && cal.Signature.Recv() != nil && len(x.Common().Args) > 0 && x.Common().Args[0] == ssa.Value(recv) && len(nodeWrites(cal)) > 0 {
+				effects = append(effects, in)
+			}
+		}
+	})
+	if len(effects) == 0 {
+		r.Undecided(ri, "the detaching helper "+w.FnName(helper)+" has no detaching effect")
+		return
+	}
+	ofChild := func(v ssa.Value, names ...string) bool {
+		root, p := accessPath(v)
+		if root != ssa.Value(child) || len(p) != 1 {
+			return false
+		}
+		for _, n := range names {
+			if n != "" && p[0] == n {
+				return true
+			}
+		}
+		return false
+	}
+	for _, k := range ptrKinds {
+		k := k
+		ok := true
+		for _, e := range effects {
+			if !onlyVia(helper, e.Block(), func(f Fact) bool { return f.Kind == FNil && ofChild(f.V, k) }) {
+				ok = false
+			}
+		}
+		r.Ob(ri, w.FnName(helper)+"|childless|"+k, helper.Pos(), ok, "the child is detached without a check that its "+k+" is nil: the rules below that child are unlinked although they are still loaded")
+	}
+	for _, k := range sliceKinds {
+		k := k
+		ok := true
+		for _, e := range effects {
+			if !onlyVia(helper, e.Block(), func(f Fact) bool {
+				l, kind := lenFact(f)
+				return l != nil && kind == "empty" && ofChild(l, k, hasByteIdx)
+			}) {
+				ok = false
+			}
+		}
+		r.Ob(ri, w.FnName(helper)+"|childless|"+k, helper.Pos(), ok, "the child is detached without a check that its "+k+" are empty: the rules below that child are unlinked although they are still loaded")
 	}
 }
